@@ -13,6 +13,22 @@ EXHAUSTING = {"list", "tuple", "set", "frozenset", "sorted", "dict", "sum", "max
 PARTIAL = {"islice", "next"}
 
 
+_LAZY_WRAPPERS = {"enumerate", "zip", "iter", "map", "filter", "chain", "islice", "zip_longest"}
+
+
+def _iterated_names(it: ast.AST) -> set:
+    """names whose iteration a loop over ``it`` drives: the name itself, or the arguments of lazy wrappers around it
+    (``for i, x in enumerate(p)``, ``for a, b in zip(p, q)``)"""
+    if isinstance(it, ast.Name):
+        return {it.id}
+    if isinstance(it, ast.Call) and (dotted(it.func) or "").split(".")[-1] in _LAZY_WRAPPERS:
+        out = set()
+        for a in it.args:
+            out |= _iterated_names(a)
+        return out
+    return set()
+
+
 def _iterates_param(repo: Repo, fi: FuncInfo, index: int, depth: int = 0) -> bool:
     """Does the callee iterate its ``index``-th positional parameter to exhaustion?"""
     ps = positional_params(fi.node)
@@ -20,7 +36,7 @@ def _iterates_param(repo: Repo, fi: FuncInfo, index: int, depth: int = 0) -> boo
         return False
     p = ps[index]
     for n in body_walk(fi.node):
-        if isinstance(n, (ast.For, ast.comprehension)) and isinstance(n.iter, ast.Name) and n.iter.id == p:
+        if isinstance(n, (ast.For, ast.comprehension)) and p in _iterated_names(n.iter):
             return True
         if isinstance(n, ast.Call):
             base = (dotted(n.func) or "").split(".")[-1]
@@ -53,7 +69,7 @@ def iterator_reuse_sites(repo: Repo, fi: FuncInfo) -> List[Tuple[str, ast.AST, a
         uses: List[Tuple[ast.AST, bool]] = []  # (node, inside repeated region)
         for n in body_walk(fi.node):
             consuming = None
-            if isinstance(n, (ast.For, ast.comprehension)) and isinstance(n.iter, ast.Name) and n.iter.id == name:
+            if isinstance(n, (ast.For, ast.comprehension)) and name in _iterated_names(n.iter):
                 consuming = n
             elif isinstance(n, ast.Call):
                 base = (dotted(n.func) or "").split(".")[-1]
